@@ -130,7 +130,7 @@ qb_array_index(struct qb_array * a, int32_t idx, void **element_out)
 		} else {
 			/* qb_array_grow gets the lock */
 			(void)qb_thread_unlock(a->grow_lock);
-			rc = qb_array_grow(a, idx + 1);
+			rc = qb_array_grow(a, (size_t)idx + 1);
 			if (rc != 0) {
 				return rc;
 			}
